@@ -39,4 +39,23 @@ def life (perOutage : Bool) (maxAttempts : Nat) : Nat â†’ List (List Attempt) â†
     | (.reconnected, used) => .reconnected :: life perOutage maxAttempts ((if perOutage then maxAttempts else left) - used) os
     | (out, _) => [out]
 
+/-- what ends one `stream.listen()` of a replier: the connection was cut while it was serving (`refused = false`),
+    or the server reported that another replier is bound (`refused = true`); then the results the following
+    reconnection attempts would have -/
+structure Session where
+  refused : Bool
+  attempts : List Attempt
+  deriving Repr
+
+/-- `KeepAlive<Replier>::listen`: a cut starts a new outage (fresh budget when `perOutage`), a refusal keeps counting
+    against the current one when `refusalCounts` -/
+def replierLife (perOutage refusalCounts : Bool) (maxAttempts : Nat) : Nat â†’ List Session â†’ List Outcome
+  | _, [] => []
+  | left, s :: ss =>
+    match reconnect (if s.refused && refusalCounts then left else if perOutage then maxAttempts else left) s.attempts with
+    | (.reconnected, used) =>
+      .reconnected :: replierLife perOutage refusalCounts maxAttempts
+        ((if s.refused && refusalCounts then left else if perOutage then maxAttempts else left) - used) ss
+    | (out, _) => [out]
+
 end Selium.KeepAlive
